@@ -164,3 +164,66 @@ func VerifC14Sync() {
 	again, _ := svc.PosMap(ctx)
 	rt.Check(svc.writes == writes && again["db"] == db.Pos(), "a repeated sync on an idle primary is a no-op and both sides agree")
 }
+
+// VerifC14BatchLimit: a backlog longer than the 256-file compaction limit is
+// uploaded in contiguous batches; the published high-water mark never runs
+// ahead of what the service acknowledged; retention in between removes nothing
+// the service still needs.
+func VerifC14BatchLimit() {
+	ctx := context.Background()
+	w := verifNewStore(true)
+	img := verifImageBig("img0", 1, false)
+	// page 1 symbolic content would make 260 compactions expensive: use a concrete first page here
+	for i := range img[0] {
+		img[0][i] = byte(i)
+	}
+	verifHeaderPage(img[0], 1, false)
+	w.verifOpenDB(img, 41)
+	db := w.db
+	svc := &verifBackupService{FileBackupClient: NewFileBackupClient(filepath.Join(w.dir, "backup"))}
+	rt.Check(svc.Open() == nil, "backup client opens")
+	w.store.BackupClient = svc
+	bdir := filepath.Join(svc.path, "db")
+	must(os.MkdirAll(bdir, 0o777))
+	// service: snapshot at 41 on our history
+	snap := verifEncodeLTX(ltx.Header{PageSize: verifP, Commit: 1, MinTXID: 1, MaxTXID: 41}, []uint32{1}, img, verifSpecChecksum(img))
+	must(os.WriteFile(filepath.Join(bdir, ltx.FormatFilename(1, 41)), snap, 0o666))
+	// local history: n further transactions, written as transaction files (what n commits leave behind)
+	n := MaxBackupLTXFileN + 1 + rt.Choose("extra", 2)
+	prev := db.Pos()
+	cur := img
+	for i := 0; i < n; i++ {
+		p := make([]byte, verifP)
+		copy(p, cur[0])
+		p[200] = byte(i)
+		p[201] = byte(i >> 8)
+		cur = [][]byte{p}
+		tx := prev.TXID + 1
+		post := verifSpecChecksum(cur)
+		file := verifEncodeLTX(ltx.Header{PageSize: verifP, Commit: 1, MinTXID: tx, MaxTXID: tx, PreApplyChecksum: prev.PostApplyChecksum, NodeID: 1}, []uint32{1}, cur, post)
+		must(os.WriteFile(db.LTXPath(tx, tx), file, 0o666))
+		prev = ltx.Pos{TXID: tx, PostApplyChecksum: post}
+	}
+	must(os.WriteFile(db.DatabasePath(), cur[0], 0o666))
+	rt.Check(db.Recover(ctx) == nil && w.store.Recover(ctx) == nil, "harness")
+	db2 := NewDB(w.store, "db", db.Path())
+	rt.Check(db2.Open() == nil, "harness: reopen on the long history")
+	w.store.dbs["db"] = db2
+	w.db, db = db2, db2
+	local := db.Pos()
+	rt.Check(local == prev, "harness: primary is at the end of its history")
+
+	rt.Check(w.store.SyncBackup(ctx) == nil, "first sync succeeds")
+	after1, _ := svc.PosMap(ctx)
+	rt.Check(after1["db"].TXID == 41+MaxBackupLTXFileN, "one sync uploads one contiguous batch of at most 256 files")
+	rt.Check(db.HWM() <= after1["db"].TXID, "published high-water mark never exceeds what the service acknowledged")
+	// a retention sweep between syncs must not remove what the service has not got yet
+	rt.Check(db.EnforceRetention(ctx, rt.MkTime(1<<62)) == nil, "retention sweep")
+	for tx := after1["db"].TXID + 1; tx <= local.TXID; tx++ {
+		rt.Check(!verifGone(db.LTXPath(tx, tx)), "retention keeps every file the service has not confirmed")
+	}
+	rt.Check(w.store.SyncBackup(ctx) == nil, "second sync succeeds")
+	after2, _ := svc.PosMap(ctx)
+	rt.Check(after2["db"] == local && db.Pos() == local, "repeated syncs bring the service to the primary's position without rolling the primary back")
+	rt.Reach("c14.batches")
+}
